@@ -137,6 +137,12 @@ impl ListenerState {
         let mut incoming = listener.incoming();
 
         while let Some(stream) = incoming.next().await {
+            // Verification hook: fault injection point
+            #[cfg(aquatic_verif)]
+            if aquatic_common::verif::fault("http_socket", self.worker_index) {
+                return;
+            }
+
             match stream {
                 Ok(stream) => {
                     let opt_valid_until = ValidUntil::new(
@@ -189,6 +195,12 @@ impl ListenerState {
         connection_id: ConnectionId,
         stream: TcpStream,
     ) {
+        // Verification hook: fault injection point
+        #[cfg(aquatic_verif)]
+        if aquatic_common::verif::fault("http_conn", self.worker_index) {
+            return;
+        }
+
         #[cfg(feature = "metrics")]
         let active_connections_gauge = ::metrics::gauge!(
             "aquatic_active_connections",
